@@ -110,15 +110,16 @@ for _naggs in (1, 2):
 
 
 @cond('C15.reshape.falsy-keys', quick=180,
-      bounds='3 base rows with second-key values from {0, 1, -1} (0 is falsy) and first-key values {0, 5}; one aggregate',
+      bounds='3 base rows with second-key values from {0, 1, -1, 9, 10, -10} (0 is falsy; numeric order differs from the order of the '
+             'texts that become column names) and first-key values {5, 10} (first row: 5); v symbolic ints; one aggregate; '
+             'PIVOT BY r, k and k, r',
       symbolic='v cells', enumerated='key cells',
-      params={'r0': int, 'r1': int, 'r2': int, 'k0': int, 'k1': int, 'k2': int,
-              'v0': Optional[int], 'v1': Optional[int], 'v2': Optional[int]})
-def reshape_falsy(r0, r1, r2, k0, k1, k2, v0, v1, v2):
-    rr = [pick([0, 5], r) for r in (r0, r1, r2)]
-    kk = [pick([0, 1, -1], k) for k in (k0, k1, k2)]
+      params={'r1': bool, 'r2': bool, 'k0': int, 'k1': int, 'k2': int, 'v0': int, 'v1': int, 'v2': int, 'swap': bool})
+def reshape_falsy(r1, r2, k0, k1, k2, v0, v1, v2, swap):
+    rr = [5, 10 if r1 else 5, 10 if r2 else 5]
+    kk = [pick([0, 1, -1, 9, 10, -10], k) for k in (k0, k1, k2)]
     rows = list(zip(rr, kk, (v0, v1, v2)))
-    return _pivot_check(rows, ('r', 'k', 'agg'), 1, True, False) or 'ok'
+    return _pivot_check(rows, ('r', 'k', 'agg'), 1, True, True if swap else False) or 'ok'
 
 
 @cond('C15.validate', quick=120,
